@@ -92,8 +92,25 @@ def gen_ops(ctx):
     return ops
 
 
+def replay(ctx, harness):
+    import json
+    r = json.load(open(ctx.replay))["replay"]
+    op = r["op"]
+    _, out, _ = ctx.run_bin(harness, input_text=op + "\n")
+    model = ctx.build_model("c19")
+    mo = ctx.run_bin(model, input_text=op + "\n")[1] if model else "?"
+    print("replay op: %s\n  impl now : %s\n  model    : %s\n  recorded : %s" % (op, out.strip(), mo.strip(), r.get("impl")))
+    f = op.split()
+    if f[0] in DECS:
+        bs = list(bytes.fromhex(f[1])) if f[1] != "-" else []
+        print("  spec     : %s" % (spec_decode(bs, *DECS[f[0]]),))
+    return 0
+
+
 def run(ctx):
     harness = ctx.build_harness("c19")
+    if ctx.replay:
+        return replay(ctx, harness)
     ctx.prove(required=REQUIRED)
     model = ctx.build_model("c19")
     ops = gen_ops(ctx)
